@@ -1,10 +1,26 @@
-//! L-frac: `Number::new_approx`, `Number::value`, `Display for Number`.
+//! L-frac: `Number::new_approx`, `Number::try_approx`, `Number::value`, `Display for Number`,
+//! `ScaledQuantity::try_fraction`, `ScaledQuantity::fit` (the part that reaches try_fraction).
 //! Case line: `<f64 bits, 16 hex> <f32 accuracy bits, 8 hex> <max_den> <max_whole> [pert]`
 //! (the optional 5th field is for the model side only).
 //! Output: `R <panic|none|reg m e|frac w n d m e> ; D <hex|-> ; VAL <m e|-> ; V <violations|->`
+//! Sequence line: `S <mode> <start> <acc bits> <max_den> <max_whole> [<acc bits> <max_den> <max_whole> ...]`:
+//! successive approximations of the SAME number, one per parameter triple.
+//!   mode n: `Number::try_approx`; q: `ScaledQuantity::try_fraction` of a quantity in a unit whose
+//!   fractions configuration is the triple (units-file layer `fractions.all`, so it goes through
+//!   `FractionsConfigHelper::define`); r: the same on a range; f: `ScaledQuantity::fit` of a quantity in a
+//!   unit without system (fit_fraction hands over to try_fraction; when that declines the quantity is
+//!   converted to another unit, which ends the sequence: amounts across units are C09's subject).
+//!   start: `b<f64 bits>` = Regular, `F<whole>,<num>,<den>,<err bits>` = a stored fraction; `A&B` for r.
+//! Output: `S <step> | <step> ... ; DEV <worst |value() - original| in ulps> ; V <violations|->` with
+//!   step = `<1|0|P|X> <number>[ & <number>]`, number = `reg m e` | `frac w n d m e`
+//!   (1/0 = the flag returned, P = panic, X = fit left the unit).
 //! The monitor (V) is the statement of C12 evaluated on what the implementation returned; the
-//! supported denominators are read from env C12_DENOMS (regenerated from the source by the check).
-use cooklang::quantity::Number;
+//! supported denominators are read from env C12_DENOMS, the bounds `define` clamps max_denominator to
+//! from env C12_CLAMP_DEN (both regenerated from the source by the check).
+use cooklang::convert::units_file::{Fractions, FractionsConfigHelper, FractionsConfigWrapper, UnitsFile};
+use cooklang::convert::Converter;
+use cooklang::quantity::{Number, Quantity, Value};
+use std::collections::HashMap;
 use vh::*;
 
 fn ulp(v: f64) -> f64 {
@@ -39,6 +55,353 @@ fn read_printed(s: &str) -> Option<(u128, u128, u128)> {
     }
 }
 
+/// The clauses of C12 about a number `x` returned for the input `v` with the limits (acc, md, mw):
+/// exact value, error within the accuracy, shape, printed form.  Pushes the names of the violated
+/// clauses; returns (printed form or Err, value()).
+fn check_some(
+    v: f64,
+    acc: f32,
+    md: u8,
+    mw: u32,
+    x: Number,
+    denoms: &[u32],
+    slack: f64,
+    viol: &mut Vec<&'static str>,
+) -> (Result<String, String>, f64) {
+    let shown = guarded(|| format!("{}", x));
+    // Number::value is part of the property ("whose exact value ..."): a panic in it
+    // (debug overflow) is a violation with this input, not a harness failure
+    let value = match guarded(|| x.value()) {
+        Ok(v) => v,
+        Err(_) => {
+            viol.push("value_panics");
+            f64::NAN
+        }
+    };
+    // declines
+    if !(v.is_finite() && v > 0.0) {
+        viol.push("declines");
+    } else {
+        // exact: value (fraction plus recorded error) equals the input
+        if !((value - v).abs() <= 4.0 * ulp(v)) {
+            viol.push("exact");
+        }
+        let max_err = acc as f64 * v;
+        match x {
+            Number::Regular(n) => {
+                if n.to_bits() != v.to_bits() {
+                    viol.push("exact");
+                }
+                // plain numbers only for (near) integers within the limit
+                if !(v.fract() < 1e-10 * slack && v.trunc() <= mw as f64) {
+                    viol.push("shape");
+                }
+                match &shown {
+                    Ok(s) => match s.parse::<f64>() {
+                        Ok(p) if (p - v).abs() <= 0.00051 => {}
+                        _ => viol.push("display"),
+                    },
+                    Err(_) => viol.push("display"),
+                }
+            }
+            Number::Fraction {
+                whole,
+                num,
+                den,
+                err,
+            } => {
+                if !(err.abs() <= max_err * slack) {
+                    viol.push("within");
+                }
+                if whole > mw {
+                    viol.push("shape");
+                }
+                if num == 0 {
+                    if whole == 0 || den == 0 {
+                        viol.push("shape");
+                    }
+                } else if !(denoms.contains(&den) && den <= md as u32 && num < den) {
+                    viol.push("shape");
+                }
+                let ok = match &shown {
+                    Ok(s) => match read_printed(s) {
+                        Some((w, n, d)) if d != 0 && den != 0 => {
+                            // w + n/d == whole + num/den, exactly
+                            let (dd, de) = (d, den as u128);
+                            (w * dd + n) * de == (whole as u128 * de + num as u128) * dd
+                        }
+                        _ => false,
+                    },
+                    Err(_) => false,
+                };
+                if !ok {
+                    viol.push("display");
+                }
+            }
+        }
+    }
+    (shown, value)
+}
+
+fn num_tok(x: &Number) -> String {
+    match *x {
+        Number::Regular(n) => format!("reg {}", f64_exact(n)),
+        Number::Fraction {
+            whole,
+            num,
+            den,
+            err,
+        } => format!("frac {} {} {} {}", whole, num, den, f64_exact(err)),
+    }
+}
+
+/// bitwise identity of two numbers (NaN-safe, unlike PartialEq for Number which compares value())
+fn same_bits(a: &Number, b: &Number) -> bool {
+    match (*a, *b) {
+        (Number::Regular(x), Number::Regular(y)) => x.to_bits() == y.to_bits(),
+        (
+            Number::Fraction {
+                whole: w1,
+                num: n1,
+                den: d1,
+                err: e1,
+            },
+            Number::Fraction {
+                whole: w2,
+                num: n2,
+                den: d2,
+                err: e2,
+            },
+        ) => w1 == w2 && n1 == n2 && d1 == d2 && e1.to_bits() == e2.to_bits(),
+        _ => false,
+    }
+}
+
+/// Number::value; a panic in it (debug overflow) is a violation, not a harness failure
+fn safe_value(n: &Number, viol: &mut Vec<&'static str>) -> f64 {
+    let n = *n;
+    match guarded(move || n.value()) {
+        Ok(v) => v,
+        Err(_) => {
+            viol.push("value_panics");
+            f64::NAN
+        }
+    }
+}
+
+fn parse_start(t: &str) -> Number {
+    if let Some(h) = t.strip_prefix('b') {
+        Number::Regular(f64::from_bits(u64::from_str_radix(h, 16).expect("start bits")))
+    } else if let Some(r) = t.strip_prefix('F') {
+        let p: Vec<&str> = r.split(',').collect();
+        Number::Fraction {
+            whole: p[0].parse().expect("whole"),
+            num: p[1].parse().expect("num"),
+            den: p[2].parse().expect("den"),
+            err: f64::from_bits(u64::from_str_radix(p[3], 16).expect("err bits")),
+        }
+    } else {
+        panic!("bad start token")
+    }
+}
+
+const SEQ_UNIT: &str = "vu";
+
+/// bundled units + a volume unit without system + `fractions.all` = the triple, enabled
+fn converter(acc: f32, md: u8, mw: u32) -> Converter {
+    let mut layer: UnitsFile = toml::from_str(
+        r#"
+[[quantity]]
+quantity = "volume"
+[quantity.units]
+unspecified = [ { names = ["vunit"], symbols = ["vu"], ratio = 1 } ]
+"#,
+    )
+    .expect("layer parses");
+    layer.fractions = Some(Fractions {
+        all: Some(FractionsConfigWrapper::Custom(FractionsConfigHelper {
+            enabled: Some(true),
+            accuracy: Some(acc),
+            max_denominator: Some(md),
+            max_whole: Some(mw),
+        })),
+        ..Default::default()
+    });
+    Converter::builder()
+        .with_bundled_units()
+        .expect("bundled units")
+        .with_units_file(layer)
+        .expect("layer accepted")
+        .finish()
+        .expect("converter")
+}
+
+fn seq_case(
+    f: &[&str],
+    denoms: &[u32],
+    clamp_den: (u8, u8),
+    slack: f64,
+    cache: &mut HashMap<(u32, u8, u32), Converter>,
+) -> String {
+    let mode = f[1];
+    let mut nums: Vec<Number> = f[2].split('&').map(parse_start).collect();
+    assert!(nums.len() == if mode == "r" { 2 } else { 1 }, "start does not fit the mode");
+    // the original exact values: what value() says before anything was approximated
+    let mut viol: Vec<&'static str> = Vec::new();
+    let v0: Vec<f64> = nums.iter().map(|n| safe_value(n, &mut viol)).collect();
+    let mut steps: Vec<String> = Vec::new();
+    let mut worst_dev = 0.0f64;
+    for (i, p) in f[3..].chunks(3).enumerate() {
+        let acc = f32::from_bits(u32::from_str_radix(p[0], 16).expect("acc bits"));
+        let md: u8 = p[1].parse().expect("max_den");
+        let mw: u32 = p[2].parse().expect("max_whole");
+        // the limits the approximation is asked to respect: for a unit configuration those `define` leaves
+        let (eacc, emd) = if mode == "n" {
+            (acc, md)
+        } else {
+            (
+                if acc < 0.0 {
+                    0.0
+                } else if acc > 1.0 {
+                    1.0
+                } else {
+                    acc
+                },
+                md.max(clamp_den.0).min(clamp_den.1),
+            )
+        };
+        let in_range = (0.0..=1.0).contains(&eacc) && emd <= 64;
+        let prev = nums.clone();
+        if mode != "n" && !cache.contains_key(&(acc.to_bits(), md, mw)) {
+            match guarded(|| converter(acc, md, mw)) {
+                Ok(c) => {
+                    cache.insert((acc.to_bits(), md, mw), c);
+                }
+                Err(e) => panic!("cannot build the converter: {}", e),
+            }
+        }
+        let conv = cache.get(&(acc.to_bits(), md, mw));
+        // one call; Ok((numbers after, flag, still in the unit))
+        let r = guarded(|| match mode {
+            "n" => {
+                let mut x = prev[0];
+                let ok = x.try_approx(acc, md, mw);
+                (vec![x], ok, true)
+            }
+            "q" | "r" | "f" => {
+                let value = if mode == "r" {
+                    Value::Range {
+                        start: prev[0],
+                        end: prev[1],
+                    }
+                } else {
+                    Value::Number(prev[0])
+                };
+                let mut q = Quantity::new(value, Some(SEQ_UNIT.to_string()));
+                let ok = if mode == "f" {
+                    q.fit(conv.unwrap()).is_ok()
+                } else {
+                    q.try_fraction(conv.unwrap())
+                };
+                // fit: anything but "approximated in this unit" ends the sequence
+                let here = q.unit() == Some(SEQ_UNIT) && (mode != "f" || ok);
+                let after = match q.value() {
+                    Value::Number(n) => vec![*n],
+                    Value::Range { start, end } => vec![*start, *end],
+                    Value::Text(_) => vec![],
+                };
+                (after, ok && here, here)
+            }
+            _ => panic!("bad mode"),
+        });
+        let (after, ok, here) = match r {
+            Err(_) => {
+                steps.push("P".into());
+                if in_range {
+                    viol.push("panic");
+                }
+                break;
+            }
+            Ok(t) => t,
+        };
+        if !here {
+            // fit moved the quantity to another unit (nothing could be approximated in this one)
+            steps.push("X".into());
+            break;
+        }
+        if after.len() != prev.len() {
+            viol.push("frame");
+            steps.push("X".into());
+            break;
+        }
+        nums = after;
+        for k in 0..nums.len() {
+            let input = safe_value(&prev[k], &mut viol);
+            let changed = !same_bits(&nums[k], &prev[k]);
+            // after EVERY call the exact value is the original one
+            let value = safe_value(&nums[k], &mut viol);
+            if v0[k].is_finite() {
+                let dev = (value - v0[k]).abs() / ulp(v0[k]);
+                if !(dev <= 4.0 * (i as f64 + 1.0)) {
+                    viol.push("exact");
+                }
+                if dev.is_finite() && dev > worst_dev {
+                    worst_dev = dev;
+                }
+            } else if !(value.to_bits() == v0[k].to_bits() || (value.is_nan() && v0[k].is_nan())) {
+                viol.push("exact");
+            }
+            if changed && !ok {
+                // `false` means declined: the number is left as it was
+                viol.push("frame");
+            }
+            if changed || (ok && nums.len() == 1) {
+                // this number is the answer to `input`: all clauses of a single approximation
+                check_some(input, eacc, emd, mw, nums[k], denoms, slack, &mut viol);
+            }
+            if !ok
+                && nums.len() == 1
+                && in_range
+                && input.is_finite()
+                && input > 0.0
+                && input.fract() == 0.0
+                && input <= mw as f64
+            {
+                // integers within the limit come back as plain numbers
+                viol.push("integers");
+            }
+        }
+        if nums.len() == 2 && ok && same_bits(&nums[0], &prev[0]) && same_bits(&nums[1], &prev[1]) {
+            // `true` from a range whose ends both stayed: one of them is claimed to be an answer
+            let mut v1: Vec<&'static str> = Vec::new();
+            let mut v2: Vec<&'static str> = Vec::new();
+            let (i0, i1) = (safe_value(&prev[0], &mut viol), safe_value(&prev[1], &mut viol));
+            check_some(i0, eacc, emd, mw, nums[0], denoms, slack, &mut v1);
+            check_some(i1, eacc, emd, mw, nums[1], denoms, slack, &mut v2);
+            if !v1.is_empty() && !v2.is_empty() {
+                viol.extend(v1);
+            }
+        }
+        steps.push(format!(
+            "{} {}",
+            if ok { 1 } else { 0 },
+            nums.iter().map(num_tok).collect::<Vec<_>>().join(" & ")
+        ));
+    }
+    viol.sort();
+    viol.dedup();
+    format!(
+        "S {} ; DEV {} ; V {}",
+        steps.join(" | "),
+        worst_dev,
+        if viol.is_empty() {
+            "-".to_string()
+        } else {
+            viol.join(",")
+        }
+    )
+}
+
 fn main() {
     let denoms: Vec<u32> = std::env::var("C12_DENOMS")
         .unwrap_or_else(|_| "2,3,4,8,10,16".into())
@@ -46,14 +409,23 @@ fn main() {
         .filter(|s| !s.is_empty())
         .map(|s| s.parse().expect("C12_DENOMS"))
         .collect();
+    let clamp_den: Vec<u8> = std::env::var("C12_CLAMP_DEN")
+        .unwrap_or_else(|_| "1,16".into())
+        .split(',')
+        .map(|s| s.parse().expect("C12_CLAMP_DEN"))
+        .collect();
     let slack = 1.0 + 2f64.powi(-40);
+    let mut cache: HashMap<(u32, u8, u32), Converter> = HashMap::new();
     drive(|f| {
+        if f[0] == "S" {
+            return seq_case(f, &denoms, (clamp_den[0], clamp_den[1]), slack, &mut cache);
+        }
         let v = f64::from_bits(u64::from_str_radix(f[0], 16).expect("v bits"));
         let acc = f32::from_bits(u32::from_str_radix(f[1], 16).expect("acc bits"));
         let md: u8 = f[2].parse().expect("max_den");
         let mw: u32 = f[3].parse().expect("max_whole");
         let in_range = (0.0..=1.0).contains(&acc) && md <= 64;
-        let mut viol: Vec<&str> = Vec::new();
+        let mut viol: Vec<&'static str> = Vec::new();
         let r = guarded(|| Number::new_approx(v, acc, md, mw));
         let (res, disp, val): (String, String, String);
         match r {
@@ -79,88 +451,9 @@ fn main() {
                 }
             }
             Ok(Some(x)) => {
-                let shown = guarded(|| format!("{}", x));
-                // Number::value is part of the property ("whose exact value ..."): a panic in it
-                // (debug overflow) is a violation with this input, not a harness failure
-                let value = match guarded(|| x.value()) {
-                    Ok(v) => v,
-                    Err(_) => {
-                        viol.push("value_panics");
-                        f64::NAN
-                    }
-                };
+                let (shown, value) = check_some(v, acc, md, mw, x, &denoms, slack, &mut viol);
                 val = f64_exact(value);
-                // declines
-                if !(v.is_finite() && v > 0.0) {
-                    viol.push("declines");
-                } else {
-                    // exact: value (fraction plus recorded error) equals the input
-                    if !((value - v).abs() <= 4.0 * ulp(v)) {
-                        viol.push("exact");
-                    }
-                    let max_err = acc as f64 * v;
-                    match x {
-                        Number::Regular(n) => {
-                            if n.to_bits() != v.to_bits() {
-                                viol.push("exact");
-                            }
-                            // plain numbers only for (near) integers within the limit
-                            if !(v.fract() < 1e-10 * slack && v.trunc() <= mw as f64) {
-                                viol.push("shape");
-                            }
-                            match &shown {
-                                Ok(s) => match s.parse::<f64>() {
-                                    Ok(p) if (p - v).abs() <= 0.00051 => {}
-                                    _ => viol.push("display"),
-                                },
-                                Err(_) => viol.push("display"),
-                            }
-                        }
-                        Number::Fraction {
-                            whole,
-                            num,
-                            den,
-                            err,
-                        } => {
-                            if !(err.abs() <= max_err * slack) {
-                                viol.push("within");
-                            }
-                            if whole > mw {
-                                viol.push("shape");
-                            }
-                            if num == 0 {
-                                if whole == 0 || den == 0 {
-                                    viol.push("shape");
-                                }
-                            } else if !(denoms.contains(&den) && den <= md as u32 && num < den) {
-                                viol.push("shape");
-                            }
-                            let ok = match &shown {
-                                Ok(s) => match read_printed(s) {
-                                    Some((w, n, d)) if d != 0 && den != 0 => {
-                                        // w + n/d == whole + num/den, exactly
-                                        let (dd, de) = (d, den as u128);
-                                        (w * dd + n) * de == (whole as u128 * de + num as u128) * dd
-                                    }
-                                    _ => false,
-                                },
-                                Err(_) => false,
-                            };
-                            if !ok {
-                                viol.push("display");
-                            }
-                        }
-                    }
-                }
-                res = match x {
-                    Number::Regular(n) => format!("reg {}", f64_exact(n)),
-                    Number::Fraction {
-                        whole,
-                        num,
-                        den,
-                        err,
-                    } => format!("frac {} {} {} {}", whole, num, den, f64_exact(err)),
-                };
+                res = num_tok(&x);
                 disp = match shown {
                     Ok(s) => hex(&s),
                     Err(_) => "panic".into(),
